@@ -166,6 +166,9 @@ func c11State(c *Ctx, n *Node) []Violation {
 	}
 	// (iv) reset HEAD@{n} resolves position n to the entry reflog shows at n
 	for i, en := range v.entries {
+		if n := len(v.entries); n > 30 && !(i <= 2 || (i >= 9 && i <= 11) || (i >= 99 && i <= 101) || i >= n-2) {
+			continue // very long journals: the positions around the digit-count boundaries and both ends
+		}
 		st := Run("reset", "--soft", fmt.Sprintf("HEAD@{%d}", i))
 		ptags := tags
 		if i >= 10 {
@@ -197,9 +200,9 @@ func c11State(c *Ctx, n *Node) []Violation {
 }
 
 func checkC11(e *RunEnv) *CheckResult {
-	msgs := []string{"m", "100% %s done", strings.Repeat("word ", 1000), "\nbody three words here", "fix: x", "a\tb", "two\nlines", "s\nthree word line", " lead", "trail ", "é", "x: y: z"}
+	msgs := []string{"m", "100% %s done", strings.Repeat("word ", 1000), strings.Repeat("seventy thousand ", 4200), "\nbody three words here", "fix: x", "a\tb", "two\nlines", "s\nthree word line", " lead", "trail ", "é", "x: y: z"}
 	spec := &Spec{
-		Seeds: []Seed{{"S0", seedS0()}, {"S2", seedS2()}, {"chain12", seedChain(12)}},
+		Seeds: []Seed{{"S0", seedS0()}, {"S2", seedS2()}, {"chain12", seedChain(12)}, {"chain101", seedChain(101)}},
 		Depth: e.pick(3, 4),
 		Steps: func(n *Node) []Step {
 			a := n.Abs()
